@@ -328,7 +328,7 @@ class Rcp:
         return None if self.generated else self.preset
 
     def js(self):
-        return {"alg": self.alg, "key": list(self.key), "p2s": self.p2s.hex() if self.p2s else None, "p2c": self.p2c,
+        return {"alg": self.alg, "key": list(self.key), "p2s": self.p2s.hex() if self.p2s is not None else None, "p2c": self.p2c,
                 "preset": list(self.preset) if self.preset else None, "sender": list(self.sender) if self.sender else None,
                 "alg_at": self.alg_at, "hdr": self.hdr, "generated": self.generated}
 
@@ -336,7 +336,7 @@ class Rcp:
     def from_js(j):
         t = lambda x: tuple(x) if x else None
         alg_at = j.get("alg_at") or ("protected" if j.get("alg_in_protected") else "recipient")
-        return Rcp(j["alg"], tuple(j["key"]), bytes.fromhex(j["p2s"]) if j["p2s"] else None, j["p2c"],
+        return Rcp(j["alg"], tuple(j["key"]), bytes.fromhex(j["p2s"]) if j["p2s"] is not None else None, j["p2c"],
                    t(j["preset"]), t(j["sender"]), alg_at, j.get("hdr", "none" if alg_at != "recipient" else "dict"),
                    j.get("generated", False))
 
@@ -348,12 +348,18 @@ class Config:
 
     def __init__(self, enc, ser, rcps, aad=None, zip_=False, keys_via="recipient"):
         self.enc, self.ser, self.rcps, self.aad, self.zip, self.keys_via = enc, ser, rcps, aad, zip_, keys_via
-        if len({r.key for r in rcps}) != 1 or ser in ("compact", "compact_obj"):
-            self.keys_via = "recipient"       # one key for all recipients is needed to hand it to encrypt_json
+        # keys_via: "recipient" (Key given to add_recipient / as the key argument), "encrypt_json" (Key given to
+        # encrypt_json), "keyset" (a KeySet holding the key) or "callable" (lambda recipient: key) as key argument
+        if len({r.key for r in rcps}) != 1 or ser == "compact_obj":
+            self.keys_via = "recipient"       # one key for all recipients is needed to hand it over as one argument
+        elif ser in ("compact", "jwt") and self.keys_via == "encrypt_json":
+            self.keys_via = "recipient"
+        if self.ser == "jwt" and any(r.sender is not None for r in rcps):
+            self.ser = "compact"              # jwt.encode has no sender_key argument
 
     @property
     def is_compact(self):
-        return self.ser in ("compact", "compact_obj")
+        return self.ser in ("compact", "compact_obj", "jwt")
 
     def coq_msg(self):
         return '{| m_enc := "%s"; m_recips := %s |}' % (self.enc, c_list(r.coq() for r in self.rcps))
@@ -406,7 +412,7 @@ class Runner:
             elif r.hdr == "empty":
                 obj.attach_recipient(key, {})
             else:
-                obj.attach_recipient(key, dict(extra) if extra else {"kid": "c18"})
+                obj.attach_recipient(key, dict(extra) if extra else {"cty": "c18"})
             if r.sender is not None:
                 obj.recipient.sender_key = self.keys.get(r.sender)
             return obj, None
@@ -419,7 +425,7 @@ class Runner:
                 unprotected = {}
         cls = FlattenedJSONEncryption if cfg.ser == "flat" else GeneralJSONEncryption
         obj = cls(protected, pt, unprotected, cfg.aad)
-        via_json = cfg.keys_via == "encrypt_json" and len(cfg.rcps) >= 1
+        via_json = cfg.keys_via in ("encrypt_json", "keyset", "callable") and len(cfg.rcps) >= 1
         for r in cfg.rcps:
             extra = self.headers_for(r)
             key = None if via_json else self.keys.get(r.key)
@@ -431,7 +437,7 @@ class Runner:
                 continue
             shared["alg"] = r.alg
             if r.hdr == "dict":
-                h = dict(extra) if extra else {"kid": "c18"}
+                h = dict(extra) if extra else {"cty": "c18"}
                 obj.add_recipient(h, key)
                 continue
             shared.update(extra)
@@ -449,7 +455,17 @@ class Runner:
                 rc.ephemeral_key = self.preset_key(r.preset)
             if r.sender is not None:
                 rc.sender_key = self.keys.get(r.sender)
-        return obj, (self.keys.get(cfg.rcps[0].key) if via_json else None)
+        return obj, (self.key_arg(cfg) if via_json else None)
+
+    def key_arg(self, cfg):
+        """the key argument in the form the configuration asks for: Key, KeySet or callable"""
+        from joserfc.jwk import KeySet
+        key = self.keys.get(cfg.rcps[0].key)
+        if cfg.keys_via == "keyset":
+            return KeySet([key])
+        if cfg.keys_via == "callable":
+            return lambda obj: key
+        return key
 
     def encrypt_obj(self, obj, json_key=None):
         """encrypt an existing message object -> ("ok", token) | ("err", exc); the token is a private copy"""
@@ -472,13 +488,16 @@ class Runner:
         """-> ("ok", token-ish) | ("err", exc).  FRESH message and header objects per call."""
         from joserfc import jwe
         try:
-            if cfg.ser == "compact":
+            if cfg.ser in ("compact", "jwt"):
                 r = cfg.rcps[0]
                 protected = {"alg": r.alg, "enc": cfg.enc}
                 protected.update(self.headers_for(r))
                 if cfg.zip:
                     protected["zip"] = "DEF"
-                tok = jwe.encrypt_compact(protected, b"C18 payload", self.keys.get(r.key), registry=self.reg,
+                if cfg.ser == "jwt":
+                    from joserfc import jwt
+                    return ("ok", jwt.encode(protected, {"sub": "c18"}, self.key_arg(cfg), registry=self.reg))
+                tok = jwe.encrypt_compact(protected, b"C18 payload", self.key_arg(cfg), registry=self.reg,
                                           sender_key=self.keys.get(r.sender))
                 return ("ok", tok)
             obj, jk = self.build_obj(cfg)
@@ -504,7 +523,7 @@ class Runner:
     def observe(self, cfg, tok, w0):
         """-> (iv_obs, [recipient obs dict], raw values dict) ; raises on undecryptable tokens"""
         from joserfc import jwe
-        vals = {"iv": None, "cek": [], "gcmiv": [], "p2s": [], "epk": [], "p2c": []}
+        vals = {"iv": None, "cek": [], "gcmiv": [], "p2s": [], "epk": [], "p2c": [], "p2s_given": []}
         if cfg.is_compact:
             parts = tok.split(".")
             protected = json.loads(b64d(parts[0]))
@@ -548,6 +567,8 @@ class Runner:
                 o["p2s"] = self.obs(("b", s), w0, ("b", r.p2s) if r.p2s is not None else None)
                 if r.p2s is None:
                     vals["p2s"].append(s)
+                else:
+                    vals["p2s_given"].append(s)
             else:
                 o["p2s"] = ("none",)
             o["p2c"] = h.get("p2c") if r.alg.startswith("PBES2") else None
@@ -618,6 +639,21 @@ def bit_counts(samples):
         for i, v in enumerate(acc.to_bytes(ln * 8, "big")):
             cnt[i] += v
     return cnt
+
+
+def structural_bits(kind, nbytes):
+    """bit positions (MSB-first index) of a public key coordinate that are constant by the encoding:
+    P-521 coordinates are 521 bits in 66 octets; the X25519 u-coordinate has 255 bits (little endian);
+    the last octet of an Ed448 public key carries only the sign bit"""
+    if not (kind.startswith("epk:") or kind.startswith("gen:")):
+        return set()
+    if ":P-521:" in kind and nbytes == 66:
+        return set(range(0, 7))
+    if ":X25519:" in kind and nbytes == 32:
+        return {31 * 8}
+    if ":Ed448:" in kind and nbytes == 57:
+        return set(range(56 * 8 + 1, 57 * 8))
+    return set()
 
 
 def fixed_bits(samples, lo):
@@ -715,6 +751,79 @@ def key_vk(key):
         pub = raw.public_key() if hasattr(raw, "public_key") else raw
         return ("rsa", pub.public_numbers().n)
     return epk_vk(key.as_dict(private=False))
+
+
+# producing entry points of the public modules
+PRODUCER_TABLE = {
+    "joserfc.jwe:encrypt_compact": 'ser "compact"',
+    "joserfc.jwe:encrypt_json": 'ser "flat" / "general"',
+    "joserfc.jwt:encode": 'ser "jwt" (with a JWERegistry)',
+    "joserfc.jwe:JWEEncModel.generate_cek": "draw site SCek (intercepted; reached through every non-direct encryption)",
+    "joserfc.jwe:JWEEncModel.generate_iv": "draw site SIv (intercepted; reached through every encryption)",
+    "joserfc.jwe:JWEEncModel.encrypt": "abstract content encryption: receives cek and iv, draws nothing (its cek is hooked on decrypt)",
+}
+
+
+def scan_producers():
+    """functions exported by joserfc.jwe / joserfc.jwt (their __all__) that produce a serialization:
+    by name (encrypt*, encode*, serialize*, generate*) or because their source calls perform_encrypt /
+    encrypt_compact / encrypt_json"""
+    import importlib, inspect, re, types
+    pat = re.compile(r"perform_encrypt\(|encrypt_compact\(|encrypt_json\(|token_bytes\(|generate_key\(")
+    found = {}
+    for mn in ("joserfc.jwe", "joserfc.jwt"):
+        mod = importlib.import_module(mn)
+        for name in getattr(mod, "__all__", []):
+            v = getattr(mod, name, None)
+            cands = []
+            if isinstance(v, types.FunctionType):
+                cands.append((name, v))
+            elif isinstance(v, type) and v.__module__.startswith("joserfc"):
+                for an in dir(v):
+                    f = getattr(v, an, None)
+                    f = getattr(f, "__func__", f)
+                    if isinstance(f, types.FunctionType) and not an.startswith("__"):
+                        cands.append((name + "." + an, f))
+            for qn, f in cands:
+                try:
+                    src = inspect.getsource(f)
+                except Exception:
+                    src = ""
+                if re.match(r"(encrypt|encode|serialize|generate)", f.__name__) or pat.search(src):
+                    found["%s:%s" % (mn, qn)] = True
+    return found
+
+
+_CROSS_TEMPLATE = """
+import json
+from joserfc import jwe
+from joserfc.jwk import OctKey, ECKey, OKPKey
+from joserfc.rfc7516.registry import JWERegistry
+import base64
+def d(x):
+    x = x.encode() if isinstance(x, str) else x
+    return base64.urlsafe_b64decode(x + b'=' * (-len(x) %%%% 4)).hex()
+reg = JWERegistry(algorithms=list(JWERegistry.algorithms['alg']) + list(JWERegistry.algorithms['enc']))
+ko = OctKey.import_key(b'0123456789abcdef'); ke = ECKey.import_key(%r); kx = OKPKey.import_key(%r)
+out = []
+for i in range(%%d):
+    for alg, k in (('A128KW', ko), ('A128GCMKW', ko), ('PBES2-HS256+A128KW', ko), ('ECDH-ES+A128KW', ke), ('ECDH-ES', kx)):
+        t = jwe.encrypt_compact({'alg': alg, 'enc': 'A128GCM'}, b'x', k, registry=reg).split('.')
+        h = json.loads(bytes.fromhex(d(t[0])))
+        out.append(['iv', d(t[2])])
+        if t[1]: out.append(['ek', d(t[1])])
+        if alg == 'A128GCMKW': out.append(['gcmiv', d(h['iv'])])
+        if 'p2s' in h: out.append(['p2s', d(h['p2s'])])
+        if 'epk' in h: out.append(['epk', h['epk']['crv'] + d(h['epk']['x'])])
+    out.append(['oct', d(OctKey.generate_key(128).as_dict()['k'])])
+    out.append(['ec', d(ECKey.generate_key('P-256').as_dict()['x'])])
+    out.append(['okp', d(OKPKey.generate_key('X25519').as_dict()['x'])])
+print(json.dumps(out))
+"""
+CROSS_CODE = _CROSS_TEMPLATE % (
+    {'crv': 'P-256', 'x': 'Kh-6nTd1cWjuSlECABv-JQaoGoNedP3g2wuXy0UC_Mk', 'y': 'xogQNwX6RX3ygilap8c54jUSJtdKxvtAd-TES34foxw',
+     'd': 'SLtsHrAvqG9Mk3YVZrbq3iOGeQ-N6gUpm3KmTCgvk08', 'kty': 'EC'},
+    {'crv': 'X25519', 'x': 'JXxUsnIgYN2YJtuUYgDY5EZyEemIVC85WrgV9jj0w14', 'd': 'QFigNjc9D2oSWxoLgOtq3QM-KGGVb4ERQzlkJVkWukE', 'kty': 'OKP'})
 
 
 REUSE_SCENARIOS = ["same", "fresh-headers", "edit", "decrypt-reencrypt", "decrypt-otherkey",
@@ -836,6 +945,9 @@ def _run(ctx, ok, log, icp, reg, ALGS, ENCS, unknown_enc):
                       {"enc": e, "no_failing_input_found": True, "broken": "harness RFC_SIZES"})
     ENCS = [e for e in ENCS if e in RFC_SIZES]
 
+    p2s_sizes = set()
+    bit_classes = set()
+    recorded = {"caller_p2s_short": 0}
     # pools for the pairwise-distinctness oracle over the whole run
     seen = {"iv": {}, "cek": {}, "p2s": {}, "gcmiv": {}, "epk": {}, "key": {}}
 
@@ -906,7 +1018,18 @@ def _run(ctx, ok, log, icp, reg, ALGS, ENCS, unknown_enc):
                 ctx.violation({"kind": "size", "what": "gcmiv"}, "AES-GCM key wrap IV of %d octets (expected 12)" % len(g), where)
             check_unique("gcmiv", g, where)
             acc['gcmiv'].append(g)
+        for s_ in vals["p2s"]:
+            p2s_sizes.add(len(s_))
+        for s_ in vals["p2s_given"]:
+            # RFC 7518 4.8.1.1 asks for 8 or more octets; a caller-chosen salt is outside C18 (the property is
+            # about the salt inputs the LIBRARY generates): recorded, not demanded
+            if len(s_) < 8 and "reuse" not in where:
+                recorded["caller_p2s_short"] += 1
         for vk, epk, r in vals["epk"]:
+            if r.caller_preset is None:
+                for co in ("x", "y"):
+                    if co in epk:
+                        acc.setdefault("epk:%s:%s" % (epk.get("crv"), co), []).append(b64d(epk[co]))
             if epk.get("kty") != r.key[0] or epk.get("crv") != r.key[1]:
                 ctx.violation({"kind": "epk-curve"}, "epk %s/%s is not on the recipient key's curve %s/%s" % (
                     epk.get("kty"), epk.get("crv"), r.key[0], r.key[1]), where)
@@ -914,6 +1037,27 @@ def _run(ctx, ok, log, icp, reg, ALGS, ENCS, unknown_enc):
                 ctx.violation({"kind": "epk-private"}, "epk header carries the private member d", where)
             if r.caller_preset is None:
                 check_unique("epk", vk, where)
+
+    def origin_oracle(cfg, iv_obs, robs, where):
+        """every emitted random value must be a draw made DURING this call (a value drawn at import /
+        definition time, cached, or derived shows as stale / unknown)"""
+        bad = []
+        if iv_obs[0] != "draw":
+            bad.append(("iv", iv_obs[0]))
+        direct = any(r.alg in ("dir", "ECDH-ES", "ECDH-1PU") for r in cfg.rcps)
+        for r, o in zip(cfg.rcps, robs):
+            if not direct and o["cek"][0] != "draw":
+                bad.append(("cek", o["cek"][0]))
+            if o["gcm"][0] not in ("none", "draw"):
+                bad.append(("gcmiv", o["gcm"][0]))
+            if o["p2s"][0] not in ("none", "draw", "given"):
+                bad.append(("p2s", o["p2s"][0]))
+            if o["epk"][0] not in ("none", "draw", "given"):
+                bad.append(("epk", o["epk"][0]))
+        for what, how in bad:
+            ctx.violation({"kind": "no-draw-in-call", "what": what},
+                          "emitted %s of %s has no draw in this call (it equals %s)" % (
+                              what, cfg.label(), "a draw made before the call" if how == "stale" else "no logged draw at all"), where)
 
     def one_(cfg, reps, tag):
         """run cfg `reps` times (>= 3 for every configuration); emit one Coq case; apply the direct oracle"""
@@ -944,6 +1088,7 @@ def _run(ctx, ok, log, icp, reg, ALGS, ENCS, unknown_enc):
                     return
                 rep = (None, shape, iv_obs, robs)
                 direct_oracle(cfg, vals, where, acc)
+                origin_oracle(cfg, iv_obs, robs, where)
                 # fresh header per call is an input condition; the implementation must not need more
             else:
                 cls = exn_class(res[1])
@@ -976,7 +1121,9 @@ def _run(ctx, ok, log, icp, reg, ALGS, ENCS, unknown_enc):
                         if len(ss) < 100:
                             continue
                         lo = bit_bounds(len(ss), TOTAL_BITS[0])
-                        bad = fixed_bits(ss, lo)
+                        skip = structural_bits(kind, ln)
+                        bad = [b_ for b_ in fixed_bits(ss, lo) if b_[0] not in skip]
+                        bit_classes.add(kind.split(":")[0] if not kind.startswith("epk") else kind)
                         if bad:
                             ctx.violation({"kind": "fixed-bits", "what": kind},
                                           "%s of %s: bit %d is set in %d of %d samples (allowed %d..%d)" % (
@@ -996,11 +1143,14 @@ def _run(ctx, ok, log, icp, reg, ALGS, ENCS, unknown_enc):
         a, h = rng.choice(ALL_SHAPES)
         return {"alg_at": a, "hdr": h}
 
+    VIAS = ["recipient", "encrypt_json", "keyset", "callable", "recipient"]
+
     def rand_ser():
-        return rng.choice(["compact", "compact_obj", "flat", "general"])
+        return rng.choice(["compact", "compact_obj", "flat", "general", "jwt"])
 
     def rand_via():
-        return rng.choice(["recipient", "encrypt_json"])
+        # (a KeySet argument is only used with keys that fit the algorithm: KeySet.pick_random_key filters by type)
+        return rng.choice(["recipient", "encrypt_json", "callable"])
     hist = []
     for i, alg in enumerate(ALGS):
         for j, enc in enumerate(ENCS):
@@ -1014,9 +1164,11 @@ def _run(ctx, ok, log, icp, reg, ALGS, ENCS, unknown_enc):
                 alg_at = "protected"
                 if j % 2 == 0:
                     ser, hdr = "compact_obj", HDRS[(j // 2) % 4]
+                elif j % 4 == 1:
+                    ser = "jwt"           # jwt.encode with a JWERegistry
             hist.append(Config(enc, ser, [Rcp(alg, key, sender=sender, alg_at=alg_at, hdr=hdr)],
                                aad=(b"aad" if ser in ("flat", "general") and j % 2 else None), zip_=(j % 4 == 3),
-                               keys_via=("encrypt_json" if (i + j) % 4 == 1 else "recipient")))
+                               keys_via=VIAS[(i + j) % len(VIAS)]))
     # multi-recipient general JSON
     multi = [
         ("A128CBC-HS256", [("RSA-OAEP", ("RSA", 2048)), ("A128KW", ("oct", 128)), ("ECDH-ES+A128KW", ("EC", "P-256"))]),
@@ -1032,7 +1184,7 @@ def _run(ctx, ok, log, icp, reg, ALGS, ENCS, unknown_enc):
             rcps.append(Rcp(alg, key, sender=((key[0], key[1], "sender") if alg.startswith("ECDH-1PU") else None)))
         hist.append(Config(enc, "general", rcps, aad=b"shared aad"))
     # total number of bits tested (for the false alarm budget): generous upper bound
-    TOTAL_BITS[0] = max(1, len(hist) * (192 + 512 + 128 + 3 * 96) + 4096)
+    TOTAL_BITS[0] = max(1, len(hist) * (192 + 512 + 128 + 3 * 96) + 4096 + 120000)   # + epk / generated key coordinates
     full = set(range(len(hist)))
     if not ctx.quick:
         # N = 10^4 on a covering subset (every alg, every enc, every serialisation, all multi), 1000 elsewhere
@@ -1096,7 +1248,13 @@ def _run(ctx, ok, log, icp, reg, ALGS, ENCS, unknown_enc):
                 kspec = key_for_alg(alg, enc, ai + si)
                 sender = (kspec[0], kspec[1], "sender") if "1PU" in alg else None
                 singles.append(Config(enc, ser, [Rcp(alg, kspec, sender=sender, alg_at=alg_at, hdr=hdr)],
-                                      keys_via=("encrypt_json" if (ai + si + (ser == "flat")) % 2 else "recipient")))
+                                      keys_via=VIAS[(ai + si + (ser == "flat")) % 4]))
+        for vi, via in enumerate(("recipient", "keyset", "callable")):
+            for ser in ("compact", "jwt"):
+                enc = ENCS[(ai + vi) % 3] if "1PU+" in alg else ENCS[(ai + vi) % len(ENCS)]
+                kspec = key_for_alg(alg, enc, ai + vi)
+                sender = (kspec[0], kspec[1], "sender") if "1PU" in alg else None
+                singles.append(Config(enc, ser, [Rcp(alg, kspec, sender=sender, alg_at="protected", hdr="omit")], keys_via=via))
         for hi, hdr in enumerate(HDRS):
             enc = ENCS[(ai + hi) % 3] if "1PU+" in alg else ENCS[(ai + hi) % len(ENCS)]
             kspec = key_for_alg(alg, enc, ai + hi)
@@ -1113,6 +1271,13 @@ def _run(ctx, ok, log, icp, reg, ALGS, ENCS, unknown_enc):
                 hdrs = [hdr] * n if rng.random() < 0.6 else [rng.choice(["omit", "none", "empty", "dict"]) for _ in range(n)]
                 singles.append(Config(enc, "general", [Rcp(alg, kspec, sender=sender, alg_at=alg_at, hdr=h) for h in hdrs],
                                       keys_via=rand_via()))
+    # (b3) falsy and boundary caller presets: "" / short p2s, p2c 0 / 1 / 2^31
+    for ai, alg in enumerate([a for a in ALGS if a.startswith("PBES2")]):
+        for pi, (p2s, p2c) in enumerate(((b"", None), (b"\x01", None), (b"1234567", 2000), (b"12345678", None), (None, 0), (None, 1),
+                                         (None, 2 ** 31), (b"", 0), (None, 999))):
+            ser = ["compact", "flat", "general", "compact_obj", "jwt"][(ai + pi) % 5]
+            shape_ = {"alg_at": "protected", "hdr": "omit"} if pi % 2 else {"alg_at": "recipient", "hdr": "dict"}
+            singles.append(Config(ENCS[(ai + pi) % len(ENCS)], ser, [Rcp(alg, ("oct", 128), p2s=p2s, p2c=p2c, **shape_)]))
     # (c) unknown algorithm, no recipient
     singles.append(Config("A128GCM", "compact", [Rcp("A512KW", ("oct", 128))]))
     for enc in ENCS:
@@ -1188,6 +1353,7 @@ def _run(ctx, ok, log, icp, reg, ALGS, ENCS, unknown_enc):
                                   "token of a reused object (%s, %s, %s) cannot be decrypted / observed: %r" % (base.label(), scenario, step, e), where)
                     return None
                 direct_oracle(cfg, vals, where, dummy)
+                origin_oracle(cfg, iv_obs, robs, dict(where, reuse_call=True))
                 for r, o in zip(cfg.rcps, robs):
                     if r.p2s is not None and base.rcps[0].p2s is None:
                         reuse_stats["p2s_kept_in_header"] += 1
@@ -1256,6 +1422,7 @@ def _run(ctx, ok, log, icp, reg, ALGS, ENCS, unknown_enc):
         w_first = len(rec.log)
         first, same = None, True
         raws = []
+        coords = {}
         for k in range(reps):
             w0 = len(rec.log)
             try:
@@ -1290,6 +1457,9 @@ def _run(ctx, ok, log, icp, reg, ALGS, ENCS, unknown_enc):
                 else:
                     d = key.as_dict(private=True)
                     vk = epk_vk(d)
+                    for co in ("x", "y"):
+                        if co in d:
+                            coords.setdefault("gen:%s:%s" % (arg, co), []).append(b64d(d[co]))
                     if d.get("crv") != arg or key.curve_name != arg:
                         ctx.violation({"kind": "curve", "what": kind}, "generated %s key is on %s, requested %s" % (kind, d.get("crv"), arg), where)
                     if kind == "EC" and key.raw_value.curve.key_size != EC_BITS.get(arg):
@@ -1317,6 +1487,19 @@ def _run(ctx, ok, log, icp, reg, ALGS, ENCS, unknown_enc):
                               "generated oct keys of %d bits: bit %d is set in %d of %d samples (allowed %d..%d)" % (
                                   arg, bad[0][0], bad[0][1], len(raws), lo + 1, len(raws) - lo - 1),
                               {"keygen": kind, "arg": arg, "private": private, "bits": bad[:8], "n": len(raws)})
+        for ck, ss in coords.items():
+            if len(ss) >= 100:
+                lo = bit_bounds(len(ss), TOTAL_BITS[0])
+                skip = structural_bits(ck, len(ss[0]))
+                bad = [b_ for b_ in fixed_bits(ss, lo) if b_[0] not in skip]
+                bit_classes.add(ck)
+                if bad:
+                    ctx.violation({"kind": "fixed-bits", "what": ck},
+                                  "generated %s keys on %s, coordinate %s: bit %d is set in %d of %d samples (allowed %d..%d)" % (
+                                      kind, arg, ck.split(":")[-1], bad[0][0], bad[0][1], len(ss), lo + 1, len(ss) - lo - 1),
+                                  {"keygen": kind, "arg": arg, "private": private, "bits": bad[:8], "n": len(ss)})
+        if len(raws) >= 100:
+            bit_classes.add("oct-key")
         err, shape, em = first
         call = {"oct": lambda: "(CallGenOct %s %s)" % (c_Z(arg), c_bool(private)),
                 "RSA": lambda: "(CallGenRSA %s)" % c_Z(arg),
@@ -1496,25 +1679,83 @@ def _run(ctx, ok, log, icp, reg, ALGS, ENCS, unknown_enc):
     ctx.coverage["generator_entry_points"] = entry_stats
     dist["entry_point_cases"] = entry_stats["registry_cases"] + entry_stats["set_cases"]
 
-    # ---------------- cross-process (thorough) ---------------------------
-    if not ctx.quick:
-        outs = []
-        code = ("from joserfc import jwe\nfrom joserfc.jwk import OctKey\n"
-                "k=OctKey.import_key(b'0123456789abcdef')\n"
-                "for i in range(50):\n"
-                "    print(jwe.encrypt_compact({'alg':'A128KW','enc':'A128GCM'}, b'x', k).split('.')[1:3])\n"
-                "print(OctKey.generate_key(256).as_dict()['k'])\n")
-        for _ in range(2):
-            p = subprocess.run([lib.PY, "-c", code], env=lib.child_env(), capture_output=True, text=True, timeout=120)
-            if p.returncode != 0:
-                ctx.violation({"kind": "harness-subprocess"}, "cross-process run failed: " + p.stderr[-300:],
-                              {"no_failing_input_found": True, "broken": "harness"})
-            outs.append(p.stdout.splitlines())
-        if len(outs) == 2 and set(outs[0]) & set(outs[1]):
-            ctx.violation({"kind": "repeat", "what": "cross-process"},
-                          "two fresh interpreters produced a common IV / wrapped key / generated key",
-                          {"common": sorted(set(outs[0]) & set(outs[1]))[:3], "code": code})
-        ctx.coverage["cross_process_values"] = sum(len(o) for o in outs)
+    # ---------------- producing entry points of the public modules (fail closed) ----
+    prod = scan_producers()
+    untabled_p = sorted(set(prod) - set(PRODUCER_TABLE))
+    stale_p = sorted(set(PRODUCER_TABLE) - set(prod))
+    for q in untabled_p:
+        ctx.violation({"kind": "untabled-producer"},
+                      "%s can produce a JWE (or key material) but is not driven by the check" % q,
+                      {"function": q, "no_failing_input_found": True, "broken": "harness PRODUCER_TABLE (fail closed)"})
+    for q in stale_p:
+        ctx.violation({"kind": "producer-table-stale"}, "%s of the check's table of producing entry points no longer exists" % q,
+                      {"function": q, "no_failing_input_found": True, "broken": "harness PRODUCER_TABLE (fail closed)"})
+    ctx.coverage["producing_entry_points"] = {"found": sorted(prod), "untabled": untabled_p, "stale": stale_p,
+                                              "serialisations_driven": sorted({m_["config"]["ser"] for m_ in meta if "config" in m_}),
+                                              "key_argument_forms": sorted({m_["config"].get("keys_via") for m_ in meta if "config" in m_})}
+
+    # ---------------- cross-process ---------------------------------------
+    # fresh interpreters (spawn) and forked children: every value they emit must differ from the other
+    # processes' and from this process' values (catches import-time draws, seeded or per-process counters)
+    per_proc = ctx.scale(6, 50)
+    procs = [subprocess.Popen([lib.PY, "-c", CROSS_CODE % per_proc], env=lib.child_env(), stdout=subprocess.PIPE,
+                              stderr=subprocess.PIPE, text=True) for _ in range(2)]
+    outs = []
+    for p_ in procs:
+        so, se = p_.communicate(timeout=300)
+        if p_.returncode != 0:
+            ctx.violation({"kind": "harness-subprocess"}, "cross-process run failed: " + se[-300:],
+                          {"no_failing_input_found": True, "broken": "harness"})
+        else:
+            outs.append(("spawn", json.loads(so)))
+    for _ in range(2):
+        rfd, wfd = os.pipe()
+        pid = os.fork()
+        if pid == 0:
+            code_ = 1
+            try:
+                os.close(rfd)
+                ns = {}
+                exec(CROSS_CODE.replace("print(json.dumps(out))", "RESULT = out") % per_proc, ns)
+                os.write(wfd, json.dumps(ns["RESULT"]).encode())
+                code_ = 0
+            finally:
+                os._exit(code_)
+        os.close(wfd)
+        buf = b""
+        while True:
+            chunk = os.read(rfd, 65536)
+            if not chunk:
+                break
+            buf += chunk
+        os.close(rfd)
+        _, st = os.waitpid(pid, 0)
+        if st != 0 or not buf:
+            ctx.violation({"kind": "harness-subprocess"}, "forked child failed (status %r)" % st,
+                          {"no_failing_input_found": True, "broken": "harness"})
+        else:
+            outs.append(("fork", json.loads(buf)))
+    own = {("iv", v.hex()) for v in seen["iv"]} | {("gcmiv", v.hex()) for v in seen["gcmiv"]} | \
+          {("p2s", v.hex()) for v in seen["p2s"]} | {("cek", v.hex()) for v in seen["cek"]}
+    allv = {}
+    for pi, (how, vals_) in enumerate(outs):
+        for kind_, hx in vals_:
+            key_ = (kind_, hx)
+            if key_ in allv or (kind_ in ("iv", "gcmiv", "p2s") and key_ in own):
+                ctx.violation({"kind": "repeat", "what": "cross-process"},
+                              "a %s value emitted in a %s process was already emitted by %s" % (
+                                  kind_, how, "process %d" % allv[key_] if key_ in allv else "this process"),
+                              {"what": kind_, "value": hx, "process": how, "code": CROSS_CODE % per_proc})
+            allv[key_] = pi
+    ctx.coverage["cross_process"] = {"processes": [h_ for h_, _ in outs], "values": sum(len(v_) for _, v_ in outs)}
+    ctx.coverage["p2s_octets_drawn"] = sorted(p2s_sizes)
+    ctx.coverage["recorded_not_demanded"] = [
+        "caller-supplied p2s shorter than 8 octets accepted (%d cases)" % recorded["caller_p2s_short"]]
+    ctx.coverage["bit_balance_classes"] = sorted(bit_classes)
+    for need in ("iv", "cek", "p2s", "gcmiv", "oct-key"):
+        if need not in bit_classes:
+            ctx.violation({"kind": "harness-coverage"}, "the per-bit balance oracle was not fed with any %s samples" % need,
+                          {"no_failing_input_found": True, "broken": "harness"})
 
     ctx.coverage["input_distribution"] = dist
     ctx.coverage["draws_logged"] = len(rec.log)
